@@ -339,3 +339,6 @@ def run(ctx):
     r3(ctx)
     r4(ctx)
     r5(ctx)
+    import rules.C12 as c12
+    ctx.borrow(c12.run, {'C12.R5': 'C05.R7'},
+               'the printed precision of fixed-point and float values depends on the stream format state')
